@@ -25,8 +25,8 @@ import vlib
 
 PART = "net"
 SUB = "netsync"
-MC_OK = ("u1", "u2", "u3", "u4")
-MC_DEV = ("dev_noreset", "dev_plus2", "dev_nofallback", "dev_ignore")
+MC_OK = ("u1", "u2", "u3", "u4", "u5")
+MC_DEV = ("dev_noreset", "dev_norunner", "dev_plus2", "dev_nofallback", "dev_ignore")
 HS_DEV = ("verackfirst", "dupversion", "earlypayload")
 SIMS = ("u1", "u2", "u2b", "u3", "u3b")
 SRC_N = 2300
